@@ -17,6 +17,9 @@
 #ifndef C19_MAX_SIZE
 #define C19_MAX_SIZE 4096 /* stated bound on the requested stack size */
 #endif
+#ifndef C19_SMALL_LO
+#define C19_SMALL_LO 88 /* smallest size for which the initial frame still fits (16-byte aligned block); by hand: -DC19_SMALL_LO=16 */
+#endif
 #ifndef C19_PAGE
 #define C19_PAGE 4096L /* value the sysconf(_SC_PAGESIZE) stub answers */
 #endif
@@ -117,7 +120,7 @@ void h_init_small_ok_malloc(void) {
   size_t sz = nondet_size();
   fiber_run_function_t fn = nondet_fn();
   void* param = nondet_ptr();
-  __CPROVER_assume(sz >= 88 && sz < FIBER_MIN_STACK_SIZE);
+  __CPROVER_assume(sz >= C19_SMALL_LO && sz < FIBER_MIN_STACK_SIZE);
   __CPROVER_assume(fn != 0);
   int r = fiber_context_init(&c, sz, fn, param);
   __CPROVER_assert(r == FIBER_SUCCESS, "fiber_context_init succeeds for undocumented small sizes >= 88");
@@ -128,7 +131,8 @@ void h_init_small_ok_malloc(void) {
 
 /* Sizes below 88 (with a 16-byte aligned malloc block) are NOT harnessed as a hold job: there the
  * frame starts below ctx_stack and CBMC reports "pointer outside object bounds" in
- * fiber_context_init (run by hand, see NOTES.md); the library has no size check.  The property
+ * fiber_context_init (by hand: h_init_small_ok_malloc with -DC19_SMALL_LO=16, see NOTES.md); the
+ * library has no size check.  The property
  * only quantifies over documented sizes (>= FIBER_MIN_STACK_SIZE). */
 
 /* rejected inputs */
@@ -196,10 +200,8 @@ void h_mmap_round_covers_request(void) {
   size_t sz = nondet_size();
   __CPROVER_assume(sz >= 1 && sz <= C19_MAX_SIZE);
   size_t total = fiber_round_to_page_size(sz);
-  __CPROVER_assert(fiberPageSize == C19_PAGE - 50, "fiber_round_to_page_size works in units of (page size - 50) bytes");
   __CPROVER_assert(total > sz, "mmap strategy: mapping length exceeds the requested size");
-  __CPROVER_assert(total >= 2 * (size_t)(C19_PAGE - 50), "mmap strategy: at least two units are mapped");
-  __CPROVER_assert(total > (size_t)C19_PAGE + FRESH_FRAME_BYTES + 16, "mmap strategy: room for the initial frame above the guard page");
+  __CPROVER_assert(total >= (size_t)C19_PAGE + FRESH_FRAME_BYTES + 16, "mmap strategy: room for the initial frame above the guard page");
   WITNESS_END();
 }
 
